@@ -45,6 +45,7 @@ type Outcome struct {
 	Inconclusive int
 	Evals        int // executions inside this case (enumerations); 0 means 1
 	Skip         bool
+	Replay       any    // when non-nil: the case to store as the replay file instead of the generated one (e.g. the same case narrowed to the one failing fault)
 	Harness      string // trouble of the harness itself (watchdog, node protocol): exit 2, never a verdict
 }
 
@@ -233,6 +234,11 @@ func runPropertyEnum[C any](t *testing.T, prop string, enum []C, gen func(*rapid
 	os.Remove(replayPath)
 	var curRapidSeed uint64
 	caseNo := 0
+	var violAt time.Time
+	shrinkBudget := 25 * time.Second
+	if *flagTier == "thorough" {
+		shrinkBudget = 3 * time.Minute
+	}
 
 	writeStats := func() {
 		st.WallS = time.Since(start).Seconds()
@@ -265,6 +271,12 @@ func runPropertyEnum[C any](t *testing.T, prop string, enum []C, gen func(*rapid
 	handle := func(c C, fatal func(sig string)) {
 		if st.HarnessErr != "" {
 			return
+		}
+		if st.Violation == "" && st.Cases > 0 && time.Now().After(deadline) {
+			return // budget used up: let the current rapid batch drain without executing more cases
+		}
+		if st.Violation != "" && time.Since(violAt) > shrinkBudget {
+			return // minimisation budget used up (rapid checks its own limit only between phases): stop accepting candidates
 		}
 		o := safeRun(c)
 		if o.Harness != "" {
@@ -339,9 +351,17 @@ func runPropertyEnum[C any](t *testing.T, prop string, enum []C, gen func(*rapid
 		}
 		// a violation not listed as known: leave the case on disk (the last write is rapid's minimal one)
 		cj, _ := json.Marshal(c)
+		if o.Replay != nil {
+			if nj, err := json.Marshal(o.Replay); err == nil {
+				cj = nj
+			}
+		}
 		rf := ReplayFile{Property: prop, Seed: *flagSeed, Worker: *flagWorker, RapidSeed: curRapidSeed, Violation: o.Violation, Sig: o.Sig, Case: cj}
 		b, _ := json.MarshalIndent(rf, "", " ")
 		_ = os.WriteFile(replayPath, b, 0o644)
+		if st.Violation == "" {
+			violAt = time.Now()
+		}
 		st.Violation = o.Violation
 		if len(st.Violation) > 3000 {
 			st.Violation = st.Violation[:3000] + " ...[truncated; full text in the replay file]"
